@@ -149,9 +149,9 @@ def stop_sim(workload, slots, rounds, quantum, tolerate=()):
 '''
 
 F = r'''
-def stop___W_____SLOTS__(rounds: int, quantum: int, work: int) -> bool:
+def stop___W_____SLOTS_____RLO__(rounds: int, quantum: int, work: int) -> bool:
     """
-    pre: 0 <= rounds <= RMAX and 1 <= quantum <= 3 and 0 <= work <= 2
+    pre: __RLO__ <= rounds <= __RHI__ and 1 <= quantum <= 3 and 0 <= work <= 2
     post: _
     """
     quantum = pick(quantum, 1, 3)
@@ -185,11 +185,14 @@ def run(ctx: Ctx) -> None:
     conds = []
     for w in (0, 1, 2):
         for slots in (1, 2):
-            f = F.replace("__W__", str(w)).replace("__SLOTS__", str(slots)).replace("RMAX", str(rmax)).replace("__TOL__", tol if w == 2 else "()")
-            if w != 2:
-                f = f.split("def finding_stop_")[0]
-            src += f
-            conds.append(Cond(f"stop_{w}_{slots}", "confirm", 3000, keyfn=_key_from_replay))
+            f = F.replace("__W__", str(w)).replace("__SLOTS__", str(slots)).replace("__TOL__", tol if w == 2 else "()")
+            fmain, ffind = f.split("def finding_stop_")
+            half = rmax // 2
+            for lo, hi in ((0, half), (half + 1, rmax)):
+                src += fmain.replace("__RLO__", str(lo)).replace("__RHI__", str(hi))
+                conds.append(Cond(f"stop_{w}_{slots}_{lo}", "confirm", 3000, keyfn=_key_from_replay))
+            if w == 2:
+                src += "def finding_stop_" + ffind.replace("RMAX", str(rmax))
             if w == 2:
                 conds.append(Cond(f"finding_stop_{w}_{slots}", "finding", 3000, key=known, keyfn=_key_from_replay,
                                   what="whole-run simulation: a stop request while a task waits for a sub-task that is still queued: on_stop joins the waiting task's thread and never returns"))
